@@ -9,7 +9,8 @@
 //!        transcoding, WHATWG replacement).
 //! bin … the `rg` binary on the encoded file (--mmap / --no-mmap, -E label / none / auto) vs `rg -E none` on the
 //!        contract's UTF-8 transcoding of the same input.
-//! shift_jis has no model: fragmentation independence of the real decoder + a fixed table of valid text.
+//! shift_jis: streaming machine + index table (data extracted from encoding_rs); corpus case `sjis-all` checks every
+//! lead/trail pair and every single byte against the real decoder.
 use grep_matcher::Matcher;
 use grep_regex::{RegexMatcher, RegexMatcherBuilder};
 use grep_searcher::{BinaryDetection, Encoding, MmapChoice, Searcher, SearcherBuilder, Sink, SinkContext, SinkMatch};
@@ -112,7 +113,7 @@ const SJIS: &[(&str, &[u8])] = &[
 
 /// kinds of input: which bytes are on disk
 const KINDS: &[&str] = &[
-    "u16le-bom", "u16be-bom", "u16le", "u16be", "u8-bom", "u8", "latin1", "sjis", "u16le-bom2", "u8-bom2", "u16le-odd", "u16be-bom-odd",
+    "u16le-bom", "u16be-bom", "u16le", "u16be", "u8-bom", "u8", "latin1", "sjis", "u16le-bom2", "u8-bom2", "u16le-odd", "u16be-bom-odd", "sjis-all",
 ];
 /// configurations: what the user asks for
 const CFGS: &[&str] = &["auto", "none", "utf-8", "utf-16le", "utf-16be", "latin1", "shift_jis"];
@@ -187,18 +188,42 @@ fn build_input(seed: u64, kind: &str, malformed: bool, big: bool) -> Input {
                 bytes.push(b'\n');
             }
         }
+        "sjis-all" => {
+            // every lead/trail pair once, one per line (validates every entry of the model's index table),
+            // followed by every single byte
+            for l in (0x81u8..=0x9F).chain(0xE0..=0xFC) {
+                for t in (0x40u8..=0x7E).chain(0x80..=0xFC) {
+                    bytes.extend(format!("{:02x}{:02x}=", l, t).as_bytes());
+                    bytes.extend([l, t, b'\n']);
+                }
+            }
+            for b in 0u8..=0xFF {
+                if b != b'\n' && b != 0 { bytes.extend([b'=', b, b'x', b'\n']); }
+            }
+        }
         _ => {
             let mut exp = vec![];
             for _ in 0..reps {
                 for _ in 0..rng.range(1, 20) {
-                    let (s, b) = rng.pick(SJIS);
-                    bytes.extend(*b);
-                    exp.extend(s.as_bytes());
+                    if malformed && rng.chance(1, 4) {
+                        // unpaired leads, invalid trails, bytes that are never valid
+                        bytes.extend(match rng.below(5) {
+                            0 => vec![0x81],
+                            1 => vec![0x81, 0x20],
+                            2 => vec![0xFD],
+                            3 => vec![0xE0, 0xFF],
+                            _ => vec![rng.range(0x81, 0xFC) as u8, rng.range(0x30, 0xFF) as u8],
+                        });
+                    } else {
+                        let (s, b) = rng.pick(SJIS);
+                        bytes.extend(*b);
+                        exp.extend(s.as_bytes());
+                    }
                 }
                 bytes.push(b'\n');
                 exp.push(b'\n');
             }
-            sjis_expected = Some(exp);
+            if !malformed { sjis_expected = Some(exp); }
         }
     }
     Input { bytes, sjis_expected }
@@ -363,13 +388,14 @@ fn run_lib(case: &str, drv: &mut Driver, rep: &mut Report) {
         problems_spec.push((format!("search_slice gives {} but search_reader gives {}", show(&via_slice[..via_slice.len().min(120)]), show(&via_whole[..via_whole.len().min(120)])), ""));
     }
     if mlabel == "sjis" {
-        // no model: a table of valid text when the input really is shift_jis without a mark
-        if let Some(exp) = &input.sjis_expected {
+        // independent of the model: a hand-written table of valid text when the input really is shift_jis
+        if let (Some(exp), true) = (&input.sjis_expected, kind == "sjis") {
             if via_whole != *exp {
                 problems_spec.push((format!("shift_jis: searched {} expected {}", show(&via_whole[..via_whole.len().min(120)]), show(&exp[..exp.len().min(120)])), ""));
             }
         }
-    } else {
+    }
+    {
         let cfg_sx = format!("(cfg {} {})", mlabel, sniff as u8);
         let chunks: Vec<String> = delivered.iter().map(|c| hex(c)).collect();
         let m_reader = unhex(&drv.ask(&format!("c17.reader {} (chunks {})", cfg_sx, chunks.join(" "))));
@@ -432,18 +458,11 @@ fn run_bin(case: &str, ctx: &mut Ctx, drv: &mut Driver, rep: &mut Report) {
     }
     let input = build_input(seed, kind, malformed == "1", big == "1");
     let (_, sniff, mlabel) = cfg_parts(cfg);
-    let reference: Vec<u8> = if mlabel == "sjis" {
-        match &input.sjis_expected {
-            Some(e) => e.clone(),
-            None => return, // no reference for shift_jis applied to other data
-        }
-    } else {
-        match unhex(&drv.ask(&format!("c17.spec (cfg {} {}) {}", mlabel, sniff as u8, hex(&input.bytes)))) {
-            Some(s) => s,
-            None => return,
-        }
+    let reference: Vec<u8> = match unhex(&drv.ask(&format!("c17.spec (cfg {} {}) {}", mlabel, sniff as u8, hex(&input.bytes)))) {
+        Some(s) => s,
+        None => return,
     };
-    let class = if mlabel == "sjis" { "" } else {
+    let class = {
         match drv.ask(&format!("c17.guard (cfg {} {}) {}", mlabel, sniff as u8, hex(&input.bytes))).as_str() {
             "f13" => CLASS_F13,
             "label" => CLASS_LABEL,
@@ -513,7 +532,7 @@ fn main() {
     let mut rep = Report::new(
         "C17",
         "Inputs: UTF-16LE/BE with and without mark, with a second mark, with an odd byte count; UTF-8 with/without mark; \
-         windows-1252 bytes; shift_jis text; texts mix ASCII, BMP, astral characters, U+FEFF, and (malformed stream, 50%) lone \
+         windows-1252 bytes; shift_jis text (valid and with unpaired leads / invalid trails; once every lead/trail pair); texts mix ASCII, BMP, astral characters, U+FEFF, and (malformed stream, 50%) lone \
          and reversed surrogates / invalid UTF-8 (stray and missing continuations, overlong, encoded surrogates, > U+10FFFF). \
          Configurations auto / none / utf-8 / utf-16le / utf-16be / latin1 / shift_jis, matching or not. lib: fragment sizes 1, 2, 3, 7, \
          mixed, 8191, 8192, 8193, whole; line-by-line and multi-line (matcher that may match the terminator, so the multi-line strategy really runs); small and 10-100 KB inputs. bin: --mmap, --no-mmap and stdin, 7 patterns, half of them as multi-line searches (-U, pattern may match the terminator). \
